@@ -129,6 +129,7 @@ def _compute_idoms(blocks, succ_all):
 def inlined_view(prog, root):
     """synthetic Fn for `root` with same-file crate-local callees inlined (None when nothing is inlined)"""
     blocks = []
+    origins = []        # per block: (function the block was copied from, base of its locals in the view, its arity)
     locals_ = list(root.locals)
     names = dict(root.names)
     promoted = list(root.rec.get("promoted") or [])
@@ -156,6 +157,7 @@ def inlined_view(prog, root):
         base = len(blocks)
         for _ in f.blocks:
             blocks.append(None)
+            origins.append((f.id, lb, f.nargs))
         pending = []
         for i, b in enumerate(f.blocks):
             nb = {"cleanup": b.get("cleanup", False), "idom": None, "stmts": []}
@@ -220,6 +222,8 @@ def inlined_view(prog, root):
                     pblk["stmts"].append({"l": nt.get("l", 0), "x": True, "dst": [glb + 1 + ai], "rv": {"r": "use", "o": [copy.deepcopy(a) if "k" in a else ({"c": (a.get("c") or a.get("m"))})]}})
                 pidx = len(blocks)
                 blocks.append(pblk)
+                origins.append(origins[bi])
+                origins.append(origins[bi])
                 midx = len(blocks)
                 marker = {"cleanup": nb.get("cleanup", False), "idom": None, "stmts": [], "term": dict(nt)}
                 marker["term"]["inlined"] = g.id
@@ -242,5 +246,6 @@ def inlined_view(prog, root):
     rec["promoted"] = promoted
     view = core.Fn(rec, root.crate)
     view.inlined = count[0]
+    view.origins = origins
     _compute_idoms(blocks, lambda b: view.succ(b, unwind=True))
     return view
